@@ -107,12 +107,160 @@ theorem vincdir_eq (lat1 lon1 az s : ℝ) (ell : Ellipsoid) :
        pround 11 (outLon lat1 lon1 az ell (vloop lat1 az s ell).1 (vloop lat1 az s ell).2),
        pround 9 (outAz lat1 az ell (vloop lat1 az s ell).2)) := by
   unfold vincdir
-  dsimp only
+  extract_lets
   generalize hL : forBreak 1000 _ _ = L
   have hv : vloop lat1 az s ell = L := hL
   rw [hv]
   obtain ⟨t, σ⟩ := L
   rfl
+
+
+/-! ## 8. Rounding -/
+
+/-- Each returned component is within half a unit of the last rounded place of the unrounded
+expression (11 places for latitude/longitude, 9 for the reverse azimuth). -/
+theorem rounding_close (lat1 lon1 az s : ℝ) (ell : Ellipsoid) :
+    |(vincdir lat1 lon1 az s ell).1 - outLat lat1 az ell (vloop lat1 az s ell).2| ≤ 1 / 2 / 10 ^ 11 ∧
+    |(vincdir lat1 lon1 az s ell).2.1
+        - outLon lat1 lon1 az ell (vloop lat1 az s ell).1 (vloop lat1 az s ell).2| ≤ 1 / 2 / 10 ^ 11 ∧
+    |(vincdir lat1 lon1 az s ell).2.2 - outAz lat1 az ell (vloop lat1 az s ell).2| ≤ 1 / 2 / 10 ^ 9 := by
+  rw [vincdir_eq]
+  exact ⟨pround_close _ _, pround_close _ _, pround_close _ _⟩
+
+/-! ## 1. The series A and B (Eq. 92, 93) -/
+
+theorem seriesA_poly (u : ℝ) :
+    seriesA u = 1 + u / 4 - 3 * u ^ 2 / 64 + 5 * u ^ 3 / 256 - 175 * u ^ 4 / 16384 := by
+  unfold seriesA; ring
+
+theorem seriesB_poly (u : ℝ) :
+    seriesB u = u / 4 - u ^ 2 / 8 + 37 * u ^ 3 / 512 - 47 * u ^ 4 / 1024 := by
+  unfold seriesB; ring
+
+/-- C04.1 — `vincdir` is the computation whose `A` and `B` are Vincenty's published polynomials in
+`u²` (the code's nested forms are these polynomials), with `σ₀ = s / (b·A)`. -/
+theorem vincenty_AB_ref (lat1 lon1 az s : ℝ) (ell : Ellipsoid) :
+    let u2 := uSq lat1 az ell
+    let A := 1 + u2 / 4 - 3 * u2 ^ 2 / 64 + 5 * u2 ^ 3 / 256 - 175 * u2 ^ 4 / 16384
+    let B := u2 / 4 - u2 ^ 2 / 8 + 37 * u2 ^ 3 / 512 - 47 * u2 ^ 4 / 1024
+    let L := loop (sigma1 lat1 az ell) B (s / (ell.semimin * A))
+    vincdir lat1 lon1 az s ell =
+      (pround 11 (outLat lat1 az ell L.2), pround 11 (outLon lat1 lon1 az ell L.1 L.2),
+       pround 9 (outAz lat1 az ell L.2)) := by
+  intro u2 A B L
+  have hL : vloop lat1 az s ell = L := by
+    simp only [vloop, sigma0, seriesA_poly, seriesB_poly, L, A, B, u2]
+  rw [vincdir_eq, hL]
+
+/-- generalized binomial coefficient `C(r, k) = r (r-1) ⋯ (r-k+1) / k!` -/
+def gbinom (r : ℚ) (k : ℕ) : ℚ := (∏ i ∈ Finset.range k, (r - i)) / (k.factorial : ℚ)
+
+/-- `k`-th Taylor coefficient of `(2/π) ∫₀^{π/2} √(1 + u sin² x) dx`:
+`C(1/2, k) · (2k−1)!!/(2k)!!` (binomial series times the Wallis integral). -/
+def taylorCoef (k : ℕ) : ℚ :=
+  gbinom (1 / 2) k * ((Nat.doubleFactorial (2 * k - 1) : ℚ) / (Nat.doubleFactorial (2 * k) : ℚ))
+
+theorem taylorCoef_values :
+    taylorCoef 0 = 1 ∧ taylorCoef 1 = 1 / 4 ∧ taylorCoef 2 = -3 / 64 ∧ taylorCoef 3 = 5 / 256 ∧
+      taylorCoef 4 = -175 / 16384 := by
+  refine ⟨?_, ?_, ?_, ?_, ?_⟩ <;>
+    simp [taylorCoef, gbinom, Finset.prod_range_succ, Nat.factorial, Nat.doubleFactorial] <;>
+    norm_num
+
+/-- C04.1 companion — the code's `A` is the degree-4 Taylor polynomial whose coefficients are
+`C(1/2,k)·(2k−1)!!/(2k)!!`, `k = 0..4`. -/
+theorem vincenty_A_taylor (u : ℝ) :
+    seriesA u = ∑ k ∈ Finset.range 5, (taylorCoef k : ℝ) * u ^ k := by
+  obtain ⟨h0, h1, h2, h3, h4⟩ := taylorCoef_values
+  simp only [Finset.sum_range_succ, Finset.sum_range_zero, h0, h1, h2, h3, h4, seriesA_poly]
+  push_cast
+  ring
+
+/-- The four products spelled out: `1/4 = ½·½`, `−3/64 = (−1/8)(3/8)`, `5/256 = (1/16)(5/16)`,
+`−175/16384 = (−5/128)(35/128)`. -/
+theorem vincenty_A_taylor_num :
+    ((1 : ℚ) / 4 = (1 / 2) * (1 / 2)) ∧ ((-3 : ℚ) / 64 = (-1 / 8) * (3 / 8)) ∧
+    ((5 : ℚ) / 256 = (1 / 16) * (5 / 16)) ∧ ((-175 : ℚ) / 16384 = (-5 / 128) * (35 / 128)) := by
+  norm_num
+
+/-! ## 2. The coefficient C (Eq. 101) -/
+
+/-- C04.1 — `C = f/16 · cos²α · (4 + f (4 − 3 cos²α))`; `omega` (hence `vincdir`, by `vincdir_eq`)
+uses `vincC ell.f α`. -/
+theorem vincenty_C_ref (f α : ℝ) :
+    vincC f α = f / 16 * Real.cos α ^ 2 * (4 + f * (4 - 3 * Real.cos α ^ 2)) := rfl
+
+/-! ## 3. `u²` and the ellipsoid argument -/
+
+/-- C04.2 — `u² = cos²α (a² − b²)/b²` with `a`, `b` the fields of the ellipsoid *argument*. -/
+theorem u_squared_def (lat1 az : ℝ) (ell : Ellipsoid) :
+    uSq lat1 az ell =
+      Real.cos (alpha lat1 az ell) ^ 2 * (ell.semimaj ^ 2 - ell.semimin ^ 2) / ell.semimin ^ 2 := rfl
+
+/-- C04.2 — `vincdir` reads only the fields `f`, `semimaj`, `semimin` of its ellipsoid argument
+(no other field, and no global default ellipsoid). -/
+theorem vincdir_ellipsoid_only (lat1 lon1 az s : ℝ) (e1 e2 : Ellipsoid)
+    (hf : e1.f = e2.f) (ha : e1.semimaj = e2.semimaj) (hb : e1.semimin = e2.semimin) :
+    vincdir lat1 lon1 az s e1 = vincdir lat1 lon1 az s e2 := by
+  rw [vincdir_eq, vincdir_eq]
+  simp only [outLat, outLon, outAz, vloop, sigma0, uSq, alpha, sigma1, u1, hf, ha, hb]
+
+/-! ## 4. Clairaut -/
+
+theorem cos_mul_sin_bounds (x y : ℝ) :
+    -1 ≤ Real.cos x * Real.sin y ∧ Real.cos x * Real.sin y ≤ 1 := by
+  have hc := Real.cos_sq_le_one x
+  have hs := Real.sin_sq_le_one y
+  constructor <;> nlinarith [sq_nonneg (Real.cos x - Real.sin y), sq_nonneg (Real.cos x + Real.sin y)]
+
+/-- C04.3 — Clairaut: `sin α = cos u₁ · sin α₁`. -/
+theorem clairaut (lat1 az : ℝ) (ell : Ellipsoid) :
+    Real.sin (alpha lat1 az ell) = Real.cos (u1 lat1 ell) * Real.sin (azr az) := by
+  obtain ⟨h1, h2⟩ := cos_mul_sin_bounds (u1 lat1 ell) (azr az)
+  unfold alpha
+  simp only [asin_def, cos_def, sin_def]
+  exact Real.sin_arcsin h1 h2
+
+/-! ## 5. The auxiliary sphere -/
+
+theorem norm_mk (x y : ℝ) : ‖(⟨x, y⟩ : ℂ)‖ = Real.sqrt (x ^ 2 + y ^ 2) := by
+  rw [Complex.norm_def, Complex.normSq_mk]; congr 1; ring
+
+theorem sqrt_mul_sin_atan2 (x y : ℝ) :
+    Real.sqrt (x ^ 2 + y ^ 2) * Real.sin (Complex.arg ⟨x, y⟩) = y := by
+  have h := Complex.norm_mul_sin_arg (⟨x, y⟩ : ℂ)
+  rwa [norm_mk] at h
+
+theorem sqrt_mul_cos_atan2 (x y : ℝ) :
+    Real.sqrt (x ^ 2 + y ^ 2) * Real.cos (Complex.arg ⟨x, y⟩) = x := by
+  have h := Complex.norm_mul_cos_arg (⟨x, y⟩ : ℂ)
+  rwa [norm_mk] at h
+
+theorem latD_nonneg (α u az σ : ℝ) : 0 ≤ latD α u az σ := by
+  unfold latD; simp only [pown_def]; positivity
+
+/-- C04.4 — unit-sphere identity: `S² + D = 1`, where `S` is the numerator of the latitude `atan2`
+and `D` the quantity under its square root (given Clairaut's `sin α = cos u₁ sin α₁`). -/
+theorem aux_sphere_unit (α u az σ : ℝ) (hα : Real.sin α = Real.cos u * Real.sin az) :
+    latNum u az σ ^ 2 + latD α u az σ = 1 := by
+  unfold latNum latD
+  simp only [pown_def, sin_def, cos_def, hα]
+  linear_combination (Real.sin u ^ 2 + Real.cos u ^ 2 * Real.cos az ^ 2) * Real.sin_sq_add_cos_sq σ
+    + Real.cos u ^ 2 * Real.sin_sq_add_cos_sq az + Real.sin_sq_add_cos_sq u
+
+/-- `X² + Y² = D` for the two arguments of the longitude `atan2`. -/
+theorem aux_sphere_xy (α u az σ : ℝ) (hα : Real.sin α = Real.cos u * Real.sin az) :
+    lonX u az σ ^ 2 + lonY az σ ^ 2 = latD α u az σ := by
+  unfold lonX lonY latD
+  simp only [pown_def, sin_def, cos_def, hα]
+  linear_combination (Real.cos u ^ 2 * Real.sin az ^ 2) * Real.sin_sq_add_cos_sq σ
+    - (Real.cos u ^ 2 * Real.cos σ ^ 2 - Real.sin u ^ 2 * Real.sin σ ^ 2) * Real.sin_sq_add_cos_sq az
+    + (Real.cos σ ^ 2 * Real.cos az ^ 2 - Real.sin σ ^ 2 * Real.cos az ^ 2) * 0
+
+/-- `(X, Y, S)` is a point of the unit sphere. -/
+theorem aux_sphere_xyz (α u az σ : ℝ) (hα : Real.sin α = Real.cos u * Real.sin az) :
+    lonX u az σ ^ 2 + lonY az σ ^ 2 + latNum u az σ ^ 2 = 1 := by
+  rw [aux_sphere_xy α u az σ hα, add_comm]; exact aux_sphere_unit α u az σ hα
 
 end
 
